@@ -443,3 +443,29 @@ def q1(ctx):
 def i1(ctx):
     from .c10 import x4, x5, x6
     return list(x4(ctx)) + list(x5(ctx)) + list(x6(ctx))
+
+
+@rule("C11", "Z1", floor=1, kind="N",
+      desc="floating and DATE values are interpreted in the time zone the query runs in: as_tz_aware_ts attaches no "
+           "time zone other than the one it was given")
+def z1(ctx):
+    fi = ctx.func(ICAL + ".as_tz_aware_ts")
+    tzparam = fi.params[1] if len(fi.params) > 1 else None
+    if tzparam is None:
+        raise AnalysisError("as_tz_aware_ts signature changed")
+    bad = []
+    uses = 0
+    for n in ast.walk(fi.node):
+        if isinstance(n, ast.Call):
+            for k in n.keywords:
+                if k.arg in ("tzinfo", "tz"):
+                    if isinstance(k.value, ast.Name) and k.value.id == tzparam:
+                        uses += 1
+                    else:
+                        bad.append(src(n))
+            d = dotted(n.func) or ""
+            if d.split(".")[-1] in ("astimezone", "localize") and not (n.args and isinstance(n.args[0], ast.Name) and n.args[0].id == tzparam):
+                bad.append(src(n))
+    return [ctx.ob(not bad and uses >= 1, fi.qualname, fi.where, "only the default time zone is attached", "tzinfo=%s" % tzparam,
+                   "as_tz_aware_ts attaches a time zone of its own in `%s`: DATE / floating values are then not interpreted in the query's time zone, so "
+                   "all-day events match or miss ranges near day boundaries" % (bad[0] if bad else "(no use of the parameter)"))]
